@@ -117,8 +117,8 @@ Lemma tail_values TFull dT TMin TMax kMin kMax st :
 Proof. unfold tail. destruct st as [a fa b fb]. cbn. repeat split. Qed.
 
 (** the whole range/flag update of one tracePhase call on an object in state [st] *)
-Definition after_trace (TFull : list R) (dT TMinReq TMaxReq : R) (st : ranges) : ranges :=
-  tail TFull dT (clamp_TMin st TMinReq) (clamp_TMax st TMaxReq)
+Definition after_trace (TFull : list R) (dT TMinReq TMaxReq T0 : R) (st : ranges) : ranges :=
+  tail TFull dT (clamp_TMin st TMinReq T0) (clamp_TMax st TMaxReq T0)
        (keep_min st TMinReq) (keep_max st TMaxReq) st.
 
 (* ------------------------------------------------------------------------------------ *)
@@ -771,38 +771,45 @@ Proof. exact diag_min_not_posdef. Qed.
 Print Assumptions diagonal_test_refuted.
 
 Theorem range_is_table_minus_margin :
-  forall TFull dT TMinReq TMaxReq st,
-  let st' := after_trace TFull dT TMinReq TMaxReq st in
+  forall TFull dT TMinReq TMaxReq T0 st,
+  let st' := after_trace TFull dT TMinReq TMaxReq T0 st in
   minT st' = lmin TFull + 2 * dT /\ maxT st' = lmax TFull - 2 * dT.
 Proof.
-  intros. destruct (tail_values TFull dT (clamp_TMin st TMinReq) (clamp_TMax st TMaxReq)
+  intros. destruct (tail_values TFull dT (clamp_TMin st TMinReq T0) (clamp_TMax st TMaxReq T0)
                       (keep_min st TMinReq) (keep_max st TMaxReq) st) as [A [B _]].
   split; assumption.
 Qed.
 Print Assumptions range_is_table_minus_margin.
 
-(** an end is flagged after a call exactly when the table stops short of the (clamped) request,
-    or when it had been flagged before and this call was asked to go at least as far as the
+(** an end is flagged after a call exactly when the table stops short of the clamped request
+    (the request clamped by the previous range, but never past the start temperature T0), or
+    when it had been flagged before and this call was asked to go at least as far as the
     previous end; in particular a narrower re-trace that reaches its request clears the flag *)
 Theorem flag_iff_short :
-  forall TFull dT TMinReq TMaxReq st,
-  let st' := after_trace TFull dT TMinReq TMaxReq st in
-  (minFlag st' = true <-> Rmax (minT st) TMinReq < lmin TFull \/
+  forall TFull dT TMinReq TMaxReq T0 st,
+  let st' := after_trace TFull dT TMinReq TMaxReq T0 st in
+  (minFlag st' = true <-> Rmin (Rmax (minT st) TMinReq) T0 < lmin TFull \/
                           (minFlag st = true /\ TMinReq <= minT st)) /\
-  (maxFlag st' = true <-> lmax TFull < Rmin (maxT st) TMaxReq \/
+  (maxFlag st' = true <-> lmax TFull < Rmax (Rmin (maxT st) TMaxReq) T0 \/
                           (maxFlag st = true /\ maxT st <= TMaxReq)) /\
-  (minFlag st = false -> (minFlag st' = true <-> Rmax (minT st) TMinReq < lmin TFull)) /\
-  (maxFlag st = false -> (maxFlag st' = true <-> lmax TFull < Rmin (maxT st) TMaxReq)).
+  (minFlag st = false ->
+     (minFlag st' = true <-> Rmin (Rmax (minT st) TMinReq) T0 < lmin TFull)) /\
+  (maxFlag st = false ->
+     (maxFlag st' = true <-> lmax TFull < Rmax (Rmin (maxT st) TMaxReq) T0)) /\
+  (* the clamped request always contains the start temperature *)
+  Rmin (Rmax (minT st) TMinReq) T0 <= T0 <= Rmax (Rmin (maxT st) TMaxReq) T0.
 Proof.
-  intros. destruct (tail_values TFull dT (clamp_TMin st TMinReq) (clamp_TMax st TMaxReq)
+  intros. destruct (tail_values TFull dT (clamp_TMin st TMinReq T0) (clamp_TMax st TMaxReq T0)
                       (keep_min st TMinReq) (keep_max st TMaxReq) st) as [_ [_ [A B]]].
   subst st'. unfold after_trace. rewrite A, B.
   unfold clamp_TMin, clamp_TMax, keep_min, keep_max.
   assert (Emin : forall f x y u v, (Rltb x y || (f && Rleb u v))%bool = true <->
                                     x < y \/ (f = true /\ u <= v)).
   { intros f x y u v. rewrite orb_true_iff, andb_true_iff, Rltb_true, Rleb_true. reflexivity. }
-  split; [apply Emin|]. split; [apply Emin|]. split; intros Hf; rewrite Hf; cbn [andb];
-    rewrite orb_false_r; apply Rltb_true.
+  split; [apply Emin|]. split; [apply Emin|].
+  split; [intros Hf; rewrite Hf; cbn [andb]; rewrite orb_false_r; apply Rltb_true|].
+  split; [intros Hf; rewrite Hf; cbn [andb]; rewrite orb_false_r; apply Rltb_true|].
+  split; [apply Rmin_r|apply Rmax_r].
 Qed.
 Print Assumptions flag_iff_short.
 
